@@ -25,6 +25,8 @@ pub struct VecSource {
     pub delivery: Delivery,
     pub bytes_per_sample: usize,
     pub hint: bool,
+    /// the hint is off by this many samples (never below 0)
+    pub hint_delta: i64,
     /// call fill_* with an empty slice at end of input (MemSource does), or not at all
     pub fill_at_eof: bool,
     /// the k-th read (0-based) returns an error
@@ -45,6 +47,7 @@ impl VecSource {
             delivery: Delivery::Ints,
             bytes_per_sample: g.bps.saturating_add(7) / 8,
             hint: true,
+            hint_delta: 0,
             fill_at_eof: true,
             fail_at: None,
             reads: 0,
@@ -107,7 +110,7 @@ impl Source for VecSource {
     }
     fn len_hint(&self) -> Option<usize> {
         if self.hint {
-            Some(self.data.len() / self.ch)
+            Some(((self.data.len() / self.ch) as i64 + self.hint_delta).max(0) as usize)
         } else {
             None
         }
